@@ -574,8 +574,9 @@ impl<'a> Parser<'a> {
         let return_type = self.type_expr()?;
 
         // Check for abstract method (no body), ellipsis, or block
-        let body = if self.check(&TokenKind::Newline) {
-            // Abstract method with just newline (trait definition)
+        let body = if self.check(&TokenKind::Newline) || self.check(&TokenKind::Dedent) || self.is_at_end() {
+            // Abstract method with just newline (trait definition); on the last line of a file without a final
+            // newline the line ends with the dedent / end-of-file tokens instead
             None
         } else if self.match_punct(PunctuationId::Colon) {
             if self.match_punct(PunctuationId::Ellipsis) {
